@@ -55,6 +55,11 @@ def run(ck: Checker, prog: Program, tier: str):
     ck.guard(_r5, ck, prog)
     ck.guard(_r6, ck, prog)
     ck.guard(_invariant_families, ck, prog)
+    # the azimuths a caller constructs the settings with are the azimuths that are processed (delivery rule of C15)
+    from .c15 import check_delivery
+    ck.guard(check_delivery, ck, prog, P + "R5", ["HvsrTraditionalRotDppProcessingSettings", "HvsrTraditionalSingleAzimuthProcessingSettings", "HvsrAzimuthalProcessingSettings"],
+             only=("azimuths_in_degrees", "azimuth_in_degrees", "ppth_percentile_for_rotdpp_computation"),
+             why="the rotation would be computed for other azimuths than requested", floor=3)
     # the deployed orientation a reader reports is the one the orientation step starts from (rules of C07)
     from . import c07
     with ck.borrow(c07, P + "R6+"):
